@@ -249,12 +249,10 @@ func (vm *VM) resetPath() {
 func (vm *VM) runPath(harness *ssa.Function) *PathResult {
 	vm.resetPath()
 	body := goFunc(func(g *G) Value {
-		// initialise every mangos package (dependencies first via the synthetic init calls)
-		for _, p := range theProgram.pkgs {
-			if vm.strictPkg(p) {
-				if f := p.Func("init"); f != nil {
-					g.callInit(f)
-				}
+		// initialise the harness package; its synthetic init pulls in its imports first
+		if harness.Pkg != nil {
+			if f := harness.Pkg.Func("init"); f != nil {
+				g.callInit(f)
 			}
 		}
 		vm.steps = 0
